@@ -145,6 +145,34 @@ def _wms_auth_decision(ex, st, post, result):
     # the callback is asked for the requested feature ('wms.map' / 'wms.featureinfo'), with the query extent
     yield ('wms_callback_gets_query_extent', z3.BoolVal(cb[-1].kwargs['query_extent'] is post.env['query_extent']),
            'the callback sees the query extent of this request')
+    # --- added after the mutation audit
+    from pyvc.values import VStr, VNone
+    a0 = cb[-1].args[0] if cb[-1].args else None
+    yield ('wms_callback_asked_for_the_feature',
+           z3.And(z3.BoolVal(isinstance(a0, VStr) and len(cb[-1].args) == 2 and cb[-1].kwargs['environ'] is post.env['env']),
+                  a0.t == z3.Concat(z3.StringVal('wms.'), post.env['feature'].t)) if isinstance(a0, VStr) else z3.BoolVal(False),
+           "the callback is asked about 'wms.<feature>' with (a copy of) the layer list and the request environment")
+    from pyvc.values import opaque_eq_str as _oes
+    ep_ = getattr(cb[-1], 'pre_epoch', 0) + 1       # the epoch right after the callback returned: when the answer is read
+    f_ = z3.Function('opaque_item_%s_%d' % (abs(hash(('s', 'authorized'))), ep_), cb[-1].result.t.sort(), cb[-1].result.t.sort())
+    yield ('wms_unauthenticated_never_served', z3.Not(_oes(f_(cb[-1].result.t), z3.StringVal('unauthenticated'))),
+           "a normal return never follows authorized == 'unauthenticated' (that answer raises RequestError 401)")
+    lim = [e for i, e in T.evs(st, 'load_limited_to')]
+    res1 = result.items[1] if isinstance(result, VSeq) else None
+    if not is_permit_all:
+        gets = [e for i, e in T.evs(st, 'get') if e.args and isinstance(e.args[0], VStr) and e.args[0].conc() == 'limited_to'
+                and e.recv is not None and e.recv.t.eq(cb[-1].result.t)]
+        ok = len(gets) == 1 and len(lim) <= 1
+        g = z3.BoolVal(bool(ok))
+        if ok:
+            has = ex.truth(st, gets[0].result)
+            if lim:
+                g = z3.And(g, has, z3.BoolVal(lim[0].args[0] is gets[0].result and
+                                              (res1 is lim[0].result or getattr(res1, 'val', None) is lim[0].result)))
+            else:
+                g = z3.And(g, z3.Not(has), z3.BoolVal(isinstance(res1, VNone)) if not hasattr(res1, 'isnone') else res1.isnone)
+        yield ('wms_request_wide_limit_is_the_callbacks', g,
+               "the request-wide limit returned is load_limited_to(result.get('limited_to')) exactly when the callback gave one")
 
 
 def _wms_auth_layer_entry(ex, st, k):
@@ -159,8 +187,21 @@ def _wms_auth_layer_entry(ex, st, k):
         goal = z3.BoolVal(bool(gets))
         for g_ in gets[:1]:
             goal = z3.And(goal, opaque_is_true(g_.result.t) if isinstance(g_.result, VOpaque) else z3.BoolVal(False))
+            # a layer without an entry for the feature is NOT permitted: the default of the lookup is False
+            dflt = g_.args[1] if len(g_.args) == 2 else None
+            goal = z3.And(goal, z3.Not(ex.truth(st, dflt)) if dflt is not None else z3.BoolVal(False))
     yield ('wms_layer_listed_only_if_permitted', goal,
            "layers[name] is set only after permissions.get(feature, False) is True was read for that layer")
+    cb = [e for e in st.trace if e.kwargs and 'query_extent' in e.kwargs and 'environ' in e.kwargs]
+    if sets:
+        yield ('wms_layers_granted_only_if_partial',
+               _item_is(cb[-1].result.t, 'authorized', 'partial', st.epoch) if cb else z3.BoolVal(False),
+               "per-layer permissions are honoured only when the callback answered authorized == 'partial'")
+        lget = [e for e in evs_ if e.name == 'get' and e.args and hasattr(e.args[0], 'conc') and isinstance(e.args[0].conc(), str)
+                and e.args[0].conc() == 'limited_to']
+        yield ('wms_layer_limit_is_its_own', z3.BoolVal(len(sets) == 1 and len(lget) == 1 and sets[0].args[-1] is lget[0].result
+                                                        and bool(gets) and lget[0].recv is not None and lget[0].recv.t.eq(gets[0].recv.t)),
+               "the limit stored for a layer is the limited_to of that layer's own permissions")
 
 
 contract(WMS + 'WMSServer.authorized_layers', props=['C10'],
